@@ -265,6 +265,10 @@ def run(rep: Report, tier: str) -> None:
     from sa import globalsx as _gx7
     _gx7.report_written_globals(P, rep, "R21.7", ("vtlengine.DataTypes.TimeHandling", "vtlengine.DataTypes._time_checking", "vtlengine.duckdb_transpiler.io._time_handling"),
                                 "the rendering of a period then depends on which periods were rendered earlier in the process")
+    # ---- R21.8: Time_Period columns are canonicalised whatever the load-validation switch says (shared with C19) ----
+    rep.rule("R21.8", "with VTL_SKIP_LOAD_VALIDATION set, _validate_loaded_table still normalises the Time_Period columns on every path (the switch skips checks, not canonicalisation)")
+    from sa.checks.c19 import normalisation_with_skip_flag as _nws
+    _nws(P, rep, "R21.8")
     rep.assumptions = ["canonical internal form = TimePeriodHandler.__str__ (lowered from the source)", "SQL string functions SUBSTR/LENGTH/LPAD/"
                        "UPPER/CAST/TRY_CAST/|| have standard semantics; period_to_date(year,'D',n) = 1 January + (n-1) days"]
 
